@@ -11,8 +11,14 @@
 // and sent to the Lean strict wire decoder (`P wire`), which must accept it, find exactly the
 // typed fields in field-number order and re-encode it byte-identically. The same for parameters
 // and key templates.
+// A serializer ERROR on an object the constructors accepted is reported as "UNSERIALIZABLE <type>"
+// except for three explicit, deliberate refusals that are only counted (AES-GCM iv != 12 / tag != 16,
+// JWT CustomKID parameters, RSA-SSA-PSS salt length 0). Key types without a parser (KMS AEAD, KMS
+// envelope, unknown URLs) go through the fallback proto key; the registry is read through an export
+// hook so that a registered type that was not exercised is listed in the histogram.
 // Stream 2 (perturb.go): non-canonical / perturbed serializations.
-// Stream 3 (keysets.go): keysets through every writer/reader pair.
+// Stream 3 (keysets.go): keysets through every writer/reader pair; 3b: handles holding an
+// unserializable key must make every writer fail.
 package main
 
 import (
